@@ -708,7 +708,21 @@ func init() {
 		}
 		return TupleV{v, st.opaqueError(msg)}
 	}
+	// whether a message can be packed at all is decided once per message object
+	packFails := func(st *State, p Ptr) bool {
+		k := "packfail:" + p.key()
+		if v, ok := st.kv[k]; ok {
+			return v.(bool)
+		}
+		f := st.decide("packfails", []int64{0, 1}) == 1
+		st.kv[k] = f
+		return f
+	}
 	reg("(*github.com/miekg/dns.Msg).Pack", simple(func(st *State, a []Value) Value {
+		if packFails(st, a[0].(Ptr)) {
+			z := st.tt.Const(0, 64)
+			return errTuple(st, SliceV{Off: z, Len: z, Cap: z}, "dns: pack error")
+		}
 		w := st.wireImage(a[0].(Ptr))
 		fresh := st.makeSlice(byteType, w.Len, w.Len)
 		st.builtinCopy(fresh, w)
@@ -718,9 +732,13 @@ func init() {
 		return st.wireImage(a[0].(Ptr)).Len
 	}))
 	reg("(*github.com/miekg/dns.Msg).PackBuffer", simple(func(st *State, a []Value) Value {
+		if packFails(st, a[0].(Ptr)) {
+			z := st.tt.Const(0, 64)
+			return errTuple(st, SliceV{Off: z, Len: z, Cap: z}, "dns: pack error")
+		}
 		w := st.wireImage(a[0].(Ptr))
 		buf := a[1].(SliceV)
-		switch st.decide("packbuffer", []int64{0, 1, 2}) {
+		switch st.decide("packbuffer", []int64{0, 1}) {
 		case 0: // built in the caller's buffer when it is large enough
 			if buf.Arr.Obj != nil && st.branch(st.tt.Cmp(OpULe, w.Len, buf.Len)) {
 				dst := SliceV{Arr: buf.Arr, Off: buf.Off, Len: w.Len, Cap: buf.Cap}
@@ -733,7 +751,49 @@ func init() {
 			st.builtinCopy(fresh, w)
 			return errTuple(st, fresh, "")
 		}
-		z := st.tt.Const(0, 64)
-		return errTuple(st, SliceV{Off: z, Len: z, Cap: z}, "dns: pack error")
+		panic("unreachable")
 	}))
+}
+
+// dns.Msg.Unpack: header-only contract.  The 12-byte header is decoded per RFC 1035
+// (ID, flag bits, opcode, rcode); section contents are not decoded (harness payloads are
+// header-only messages, for which the real function yields the same result).
+func init() {
+	reg("(*github.com/miekg/dns.Msg).Unpack", simple(func(st *State, a []Value) Value {
+		tt := st.tt
+		p := a[0].(Ptr)
+		b := a[1].(SliceV)
+		if st.branch(tt.Cmp(OpULt, b.Len, tt.Const(12, 64))) {
+			return st.opaqueError("dns: overflow unpacking header")
+		}
+		if st.branch(tt.Not(tt.Eq(b.Len, tt.Const(12, 64)))) {
+			panic(unsupported("dns.Msg.Unpack of a message with sections (only header-only payloads are modelled)"))
+		}
+		arr := st.arrayAt(b.Arr)
+		at := func(i int) *Term { return st.sliceElem(arr, b.Off, i).(*Term) }
+		set := func(name string, v Value) { st.storeNoRace(p.sub(st.fieldIndex(p, "MsgHdr")).sub(st.hdrField(p, name)), v) }
+		bit := func(x *Term, k int) *Term { return tt.Eq(tt.Extract(x, k, k), tt.Const(1, 1)) }
+		set("Id", tt.Concat(at(0), at(1)))
+		set("Response", bit(at(2), 7))
+		set("Opcode", tt.ZExt(tt.Extract(at(2), 6, 3), 64))
+		set("Authoritative", bit(at(2), 2))
+		set("Truncated", bit(at(2), 1))
+		set("RecursionDesired", bit(at(2), 0))
+		set("RecursionAvailable", bit(at(3), 7))
+		set("Zero", bit(at(3), 6))
+		set("AuthenticatedData", bit(at(3), 5))
+		set("CheckingDisabled", bit(at(3), 4))
+		set("Rcode", tt.ZExt(tt.Extract(at(3), 3, 0), 64))
+		for i := 4; i < 12; i++ {
+			if !st.branch(tt.Eq(at(i), tt.Const(0, 8))) {
+				panic(unsupported("dns.Msg.Unpack: non-zero section counts"))
+			}
+		}
+		return IfaceV{}
+	}))
+}
+
+func (st *State) hdrField(p Ptr, name string) int {
+	q := p.sub(st.fieldIndex(p, "MsgHdr"))
+	return st.fieldIndex(q, name)
 }
